@@ -995,9 +995,10 @@ func callBuiltin(caller *frame, callpos token.Pos, fn *ssa.Builtin, args []value
 			// append([]T, ...[]T) []T
 			extra = args[1].([]value)
 		}
-		if undoOn && len(arg0)+len(extra) <= cap(arg0) {
+		if len(arg0)+len(extra) <= cap(arg0) {
 			full := arg0[:len(arg0)+len(extra)]
 			for i := len(arg0); i < len(full); i++ {
+				raceWrite(&full[i])
 				logCell(&full[i])
 			}
 		}
@@ -1010,12 +1011,13 @@ func callBuiltin(caller *frame, callpos token.Pos, fn *ssa.Builtin, args []value
 		}
 		dst := args[0].([]value)
 		srcv := src.([]value)
-		if undoOn {
+		{
 			n := len(dst)
 			if len(srcv) < n {
 				n = len(srcv)
 			}
 			for i := 0; i < n; i++ {
+				raceWrite(&dst[i])
 				logCell(&dst[i])
 			}
 		}
